@@ -351,22 +351,34 @@ def build_facts(tier="quick", verbose=False):
     key = tree_hash()
     work = os.path.join(CACHE, "w-" + key)
     os.makedirs(CACHE, exist_ok=True)
-    lock = open(os.path.join(CACHE, "lock"), "w")
-    fcntl.flock(lock, fcntl.LOCK_EX)
+    done = os.path.join(work, "DONE")
+    # a short global lock for pruning, then one lock per tree: different trees build in parallel
+    glock = open(os.path.join(CACHE, "lock"), "w")
+    fcntl.flock(glock, fcntl.LOCK_EX)
     try:
-        done = os.path.join(work, "DONE")
         if os.path.exists(done):
             try:
                 os.utime(work)
             except OSError:
                 pass
             return work
-        # prune old work dirs (disk is limited): keep the eight most recently used besides this one, and anything used in the last half hour
         olds = sorted((d for d in glob.glob(os.path.join(CACHE, "w-*")) if d != work), key=os.path.getmtime, reverse=True)
         for d in olds[8:]:
             if time.time() - os.path.getmtime(d) > 1800:      # never a directory another run may still be reading
                 subprocess.run(["rm", "-rf", d])
+                try:
+                    os.remove(os.path.join(CACHE, "lock-" + os.path.basename(d)[2:]))
+                except OSError:
+                    pass
         os.makedirs(work, exist_ok=True)
+    finally:
+        fcntl.flock(glock, fcntl.LOCK_UN)
+        glock.close()
+    lock = open(os.path.join(CACHE, "lock-" + key), "w")
+    fcntl.flock(lock, fcntl.LOCK_EX)
+    try:
+        if os.path.exists(done):
+            return work
         t0 = time.time()
         overlay, shimmed = make_overlay(work)
         umb = write_umbrella(work)
